@@ -32,6 +32,8 @@ def make_model(kind, rank):
         return nn.Sequential(nn.Conv1d(2, 3, 2), nn.ReLU(), nn.Flatten(), nn.Linear(9, 2)), (2, 4), 'float'
     if kind == 'emb':
         return nn.Sequential(nn.Embedding(7, 4), nn.Flatten(), nn.Linear(12, 2)), (3,), 'int'
+    if kind == 'embpad':   # index 0 is the padding index: its row never receives gradient
+        return nn.Sequential(nn.Embedding(7, 4, padding_idx=0), nn.Flatten(), nn.Linear(12, 2)), (3,), 'intpad'
     if kind == 'norm':
         return nn.Sequential(nn.Linear(4, 6), nn.LayerNorm(6), nn.Linear(6, 2)), (4,), 'float'
     if kind == 'gn':
@@ -42,6 +44,9 @@ def make_model(kind, rank):
 def inputs(shape, dtype, n, scale, g):
     if dtype == 'int':
         return torch.randint(0, 7, (n,) + shape, generator=g)
+    if dtype == 'intpad':  # about half of the positions are padding
+        x = torch.randint(0, 7, (n,) + shape, generator=g)
+        return x * (torch.rand(x.shape, generator=g) < 0.5)
     return torch.randn((n,) + shape, generator=g) * scale
 
 
